@@ -12,8 +12,8 @@ from inspect import Parameter
 
 import numpy
 
-from .core import (KGChannel, KGChannelDir, KGLambda, KGSym, KlongException,
-                   bknp, is_dict, is_empty, is_list, kg_read_array, kg_write,
+from .core import (KGCall, KGChannel, KGChannelDir, KGLambda, KGSym, KlongException,
+                   bknp, copy_lambda, is_dict, is_empty, is_list, kg_read_array, kg_write,
                    reserved_fn_args, reserved_fn_symbol_map, safe_eq, safe_inspect)
 
 
@@ -737,6 +737,19 @@ def eval_sys_random_number():
     return bknp.random.random()
 
 
+def _read_dictionaries(a):
+    """
+    The reader returns a dictionary literal as a deferred copy (a program evaluates it to a
+    fresh dictionary each time). .r and .rs return data, so resolve it here, at any depth.
+    """
+    if isinstance(a, KGCall) and a.a is copy_lambda:
+        return {k: _read_dictionaries(v) for k, v in a.args.items()}
+    if isinstance(a, numpy.ndarray) and a.dtype == object:
+        for idx in numpy.ndindex(a.shape):
+            a[idx] = _read_dictionaries(a[idx])
+    return a
+
+
 def eval_sys_read(klong):
     """
 
@@ -757,7 +770,7 @@ def eval_sys_read(klong):
     else:
         i,a = kg_read_array(r, 0, klong._backend, module=klong.current_module())
         f.raw.seek(k+i,0)
-        return a
+        return _read_dictionaries(a)
 
 
 def eval_sys_read_line(klong):
@@ -805,7 +818,7 @@ def eval_sys_read_string(klong, x):
 
     """
     _, a = kg_read_array(x, 0, klong._backend, module=klong.current_module(), read_neg=True)
-    return a
+    return _read_dictionaries(a)
 
 
 def eval_sys_system(x):
